@@ -1,6 +1,7 @@
 package props
 
 import (
+	"reflect"
 	"bytes"
 	"errors"
 	"fmt"
@@ -134,12 +135,34 @@ func genExtValues(rg *rand.Rand) []tls.TLSExtension {
 		fpsk,
 		&tls.UtlsPreSharedKeyExtension{OmitEmptyPsk: true}, // uninitialised real PSK: documented zero-length encoding
 		ech,
+		realPSK(rg),
 	}
+}
+
+// realPSK: the real pre_shared_key extension in every combination of its exported fields
+// (with / without a session, 0..3 identities and binders, both OmitEmptyPsk settings).
+func realPSK(rg *rand.Rand) tls.TLSExtension {
+	e := &tls.UtlsPreSharedKeyExtension{OmitEmptyPsk: rg.Intn(4) != 0}
+	if rg.Intn(3) != 0 {
+		e.Session = &tls.SessionState{}
+	}
+	ni := rg.Intn(4)
+	for i := 0; i < ni; i++ {
+		e.Identities = append(e.Identities, tls.PskIdentity{Label: randBytes(rg, 1+rg.Intn(300)), ObfuscatedTicketAge: rg.Uint32()})
+	}
+	nb := ni // one binder per identity (RFC 8446); or none at all yet
+	if rg.Intn(5) == 0 {
+		nb = 0
+	}
+	for i := 0; i < nb; i++ {
+		e.Binders = append(e.Binders, randBytes(rg, []int{32, 48, 64}[rg.Intn(3)]))
+	}
+	return e
 }
 
 // C08 — Every extension's encoder and decoder agree.
 func TestC08(t *testing.T) {
-	r := mon.New("C08", "every built-in TLSExtension type (31 structs) x generated field values (lists of 1..n entries, boundary lengths): Len() vs bytes Read() writes into a canary-tailed buffer, header/inner length prefixes under the strict grammar, io.ErrShortBuffer on every shorter buffer (all sizes for n<=96, sampled above), and for writers Read(Write(body)) reproduces the bytes modulo the documented normalisations (independent normaliser). distinct = (type, encoded length) pairs")
+	r := mon.New("C08", "every built-in TLSExtension type (31 structs) x generated field values (lists of 1..n entries, boundary lengths): Len() vs bytes Read() writes into a canary-tailed buffer that is pre-filled with 0x00 / 0xFF / 0xA7 (the encoding must not depend on it), the same after the exported fields were changed following a first Len() call, header/inner length prefixes under the strict grammar, io.ErrShortBuffer on every shorter buffer (all sizes for n<=96, sampled above), and for writers Read(Write(body)) reproduces the bytes modulo the documented normalisations (independent normaliser). distinct = (type, encoded length) pairs")
 	defer r.Finish(t)
 	rounds := mon.Pick(3000, 300000)
 	typesSeen := map[string]int{}
@@ -161,12 +184,29 @@ func TestC08(t *testing.T) {
 			for k := n; k < len(buf); k++ {
 				buf[k] = 0xC5
 			}
+			// the destination is the caller's buffer: it may hold anything (a reused buffer)
+			dirt := []byte{0x00, 0xFF, 0xA7}[(i+len(tn))%3]
+			for k := 0; k < n; k++ {
+				buf[k] = dirt
+			}
 			var got int
 			var rerr error
 			pn, pv = recoverPanic(func() { got, rerr = e.Read(buf) })
 			if pn {
 				viol("read_panic", fmt.Sprint(pv), nil)
 				continue
+			}
+			if n == 0 && errors.Is(rerr, tls.ErrEmptyPsk) {
+				r.Case(tn+"|refused-empty-psk", true)
+				continue // documented: an empty real PSK is refused unless OmitEmptyPsk is set
+			}
+			if dirt != 0 && !pn && (rerr == nil || rerr == io.EOF) && got == n {
+				clean := make([]byte, n)
+				if g2, _ := e.Read(clean); g2 == n && !bytes.Equal(clean, buf[:n]) {
+					viol("read_leaves_bytes_unwritten", fmt.Sprintf("Read reports %d bytes but the encoding depends on what the buffer held before (zeroed: %x, filled with %#02x: %x)", n, clean, dirt, buf[:n]), buf[:n])
+					copy(buf, clean)
+				}
+				r.Count("dirty_buffer_reads", 1)
 			}
 			if rerr != nil && rerr != io.EOF {
 				viol("read_error", fmt.Sprintf("Read into a sufficient buffer: %v", rerr), nil)
@@ -290,6 +330,50 @@ func TestC08(t *testing.T) {
 			}
 		}
 	}
+	// field values changed after a first Len(): the statement quantifies over field values,
+	// whatever the object was asked before
+	for i := 0; i < rounds/4; i++ {
+		es1, es2 := genExtValues(Sub("C08", i)), genExtValues(Sub("C08second", i))
+		for k := range es1 {
+			a, b := es1[k], es2[k]
+			tn := fmt.Sprintf("%T", a)
+			if fmt.Sprintf("%T", b) != tn {
+				continue
+			}
+			if pn, _ := recoverPanic(func() { a.Len() }); pn {
+				continue
+			}
+			va, vb := reflect.ValueOf(a).Elem(), reflect.ValueOf(b).Elem()
+			if va.Kind() != reflect.Struct {
+				continue
+			}
+			for f := 0; f < va.NumField(); f++ {
+				if va.Type().Field(f).IsExported() && va.Field(f).CanSet() {
+					va.Field(f).Set(vb.Field(f))
+				}
+			}
+			var n, got int
+			var rerr error
+			var buf []byte
+			pn, pv := recoverPanic(func() {
+				n = a.Len()
+				buf = make([]byte, n+8)
+				got, rerr = a.Read(buf)
+			})
+			if pn {
+				r.Violation(map[string]string{"kind": "panic_after_field_change", "type": tn}, fmt.Sprintf("%s: %v", tn, pv), map[string]any{"case": i})
+				continue
+			}
+			r.Count("field_change_cases", 1)
+			if n == 0 && errors.Is(rerr, tls.ErrEmptyPsk) {
+				continue
+			}
+			if (rerr == nil || rerr == io.EOF) && got != n {
+				r.Violation(map[string]string{"kind": "len_read_mismatch_after_field_change", "type": tn},
+					fmt.Sprintf("%s: after its exported fields were changed following a first Len() call, Len()=%d but Read wrote %d", tn, n, got), map[string]any{"case": i, "encoded": mon.Hex(buf[:min(got, len(buf))])})
+			}
+		}
+	}
 	for tn, c := range typesSeen {
 		r.Count("type_"+tn, int64(c))
 	}
@@ -301,6 +385,9 @@ func groupsOnly(ch *wire.ClientHello) string {
 	s := ""
 	for _, k := range ch.KeyShares {
 		s += fmt.Sprintf("%04x,", g16(k.Group))
+		if wire.IsGREASE(k.Group) {
+			s += fmt.Sprintf("[%x],", k.Key) // only non-GREASE key data is documented as dropped
+		}
 	}
 	return s
 }
@@ -325,6 +412,9 @@ func groupsOfRaw(b []byte) string {
 			return s + "?"
 		}
 		s += fmt.Sprintf("%04x,", g16(g))
+		if wire.IsGREASE(g) {
+			s += fmt.Sprintf("[%x],", b[4:4+l])
+		}
 		b = b[4+l:]
 	}
 	return s
